@@ -57,12 +57,16 @@ EvOpen ==
        /\ e.codec = cfg.codec
        /\ e.ver = cfg.ver
        /\ e.levels = cfg.levels
+       /\ e.empty = (N(content) = 0)
+       \* C16: opening reads nothing before the trailer (22 bytes for V2, 21 for V1)
+       /\ CheckLoads => e.rmin >= e.size - (IF cfg.ver = 1 THEN 21 ELSE 22)
     /\ UNCHANGED <<content, cfg, curs>>
 
 \* Reader::into_cursor
 EvCursor ==
     /\ IsEvent("Cursor")
     /\ Rec[l].res = "ok"
+    /\ CheckLoads => Rec[l].io = 0          \* C16: creating a cursor performs no I/O
     /\ curs' = (Rec[l].c :> Fresh) @@ curs
     /\ UNCHANGED <<content, cfg>>
 
